@@ -225,10 +225,11 @@ theorem recvDataFrameLoop_released (fuel : Nat) (cf : Bool) : ∀ c : Conn, c.ha
         · -- close
           split
           · simpa using s1
-          · have := sendClose_released c1 ((Gen.statusNormal : Nat) : Int) [] h1
-            generalize c1.sendClose ((Gen.statusNormal : Nat) : Int) [] = r at this
+          · have := sendClose_released ({ c1 with ownCloses := c1.ownCloses + 1 } : Conn) ((Gen.statusNormal : Nat) : Int) [] (by simpa using h1)
+            generalize ({ c1 with ownCloses := c1.ownCloses + 1 } : Conn).sendClose ((Gen.statusNormal : Nat) : Int) [] = r at this
             obtain ⟨e, c2⟩ := r
-            cases e <;> exact Rel.trans s1 (by simpa using this)
+            have hb : Rel c1 ({ c1 with ownCloses := c1.ownCloses + 1 } : Conn) := ⟨rfl, by simpa using h1⟩
+            cases e <;> exact Rel.trans s1 (Rel.trans hb (by simpa using this))
         · split
           · -- ping
             split
